@@ -274,6 +274,42 @@ example : (precompute 2 1 [(10, 0), (11, 1), (12, 0)]
       (fun buf => buf.map (·.n)) = some [2, 1] := by
   decide +kernel
 
+/-- "For each leaf cluster and gene the reference-statistics file holds the
+number of member cells, the sum and sum of squares of log2(CPM+1), and the
+numbers of member cells with CPM above 0, above 1, and at least 1" - `direct`
+spelled out field by field: if every cell has `g` gene values then, for every
+output row `c` and gene `j`, with `members` = the cells of all files that the
+table names for `c`: `n_cells[c]` is their number and `sum[c, j]`,
+`sumsq[c, j]`, `gt0[c, j]`, `gt1[c, j]`, `ge1[c, j]` are the plain sums over
+`members` of the value, its square and the three threshold indicators
+(`thresholds` says what the indicators mean in CPM). -/
+theorem direct_fields (nClusters g : Nat) (nameToRow : List (Nat × Nat))
+    (files : List (Nat × List CellRec)) (rows nProc : Nat)
+    (hrows : 1 ≤ rows) (hproc : 1 ≤ nProc) (hntr : ∀ p ∈ nameToRow, p.2 < nClusters)
+    (hw : ∃ f ∈ files, wanted nameToRow f.2 = true)
+    (hg : ∀ f ∈ files, ∀ cell ∈ f.2, cell.vals.length = g) :
+    ∃ buf, precompute nClusters g nameToRow files rows nProc = .ok buf ∧
+      ∀ (c j : Nat), c < nClusters → j < g → ∃ (row : Row) (s : GStat),
+        buf[c]? = some row ∧ row.genes[j]? = some s ∧
+        row.n = (cellsOfRow nameToRow c (files.flatMap (·.2))).length ∧
+        s.sum = ((cellsOfRow nameToRow c (files.flatMap (·.2))).map
+          (fun cell => cell.vals.getD j 0)).sum ∧
+        s.sumsq = ((cellsOfRow nameToRow c (files.flatMap (·.2))).map
+          (fun cell => cell.vals.getD j 0 * cell.vals.getD j 0)).sum ∧
+        s.gt0 = ((cellsOfRow nameToRow c (files.flatMap (·.2))).map
+          (fun cell => (geneStat (cell.vals.getD j 0)).gt0)).sum ∧
+        s.gt1 = ((cellsOfRow nameToRow c (files.flatMap (·.2))).map
+          (fun cell => (geneStat (cell.vals.getD j 0)).gt1)).sum ∧
+        s.ge1 = ((cellsOfRow nameToRow c (files.flatMap (·.2))).map
+          (fun cell => (geneStat (cell.vals.getD j 0)).ge1)).sum :=
+  precompute_fields nClusters g nameToRow files rows nProc hrows hproc hntr hw hg
+
+example : (precompute 2 2 [(10, 0), (11, 1), (12, 0)]
+      [(0, [⟨10, [1, 0]⟩, ⟨99, [7, 7]⟩]), (2, [⟨11, [2, 1/2]⟩, ⟨12, [3, 1]⟩])] 1 2).toOption.map
+      (fun buf => buf.map (fun row => row.genes.map (fun s => (s.sum, s.gt0, s.gt1, s.ge1))))
+    = some [[(4, 2, 1, 2), (1, 1, 0, 1)], [(2, 1, 1, 1), (1/2, 1, 0, 0)]] := by
+  decide +kernel
+
 /-- "Collapsing the file to a coarser hierarchy ..." (`_convert_to_new_leaves`):
 `anc` sends every old leaf to its ancestor at the new leaf level.  If every old
 leaf has a row (through the file's `cluster_to_row`) inside the old arrays and
@@ -344,5 +380,65 @@ example : ∃ out, truncate 1 [(Row.zero 1).add (rowSum [cellStat [1]]),
       rcases hp with rfl | rfl <;> exact ⟨_, rfl, by decide, by decide +kernel⟩)
     (by decide)
   exact ⟨out, h1, by simpa using h3 30 0 (by decide)⟩
+
+/-- "Collapsing the file to a coarser hierarchy gives the statistics of that
+hierarchy" end to end: write the file for the fine labelling `nameToRow`
+(rows of the old leaves through `oldLeafToRow`), then collapse it along `anc`
+(old leaf ↦ ancestor at the new leaf level).  The result is identical to the
+file written directly - with any chunk size and worker count - for the coarser
+labelling `nameToRow'`, where a cell is sent to new row `i` exactly when the
+fine labelling sends it to the row of an old leaf whose ancestor is the new
+leaf at position `i` (`hnew`).  Side conditions: the old leaves are listed
+once and have distinct rows inside the file, the new leaves are distinct and
+contain every ancestor, and (as for any run) each table has its rows inside the
+output and names at least one cell of some file. -/
+theorem truncate_coarser (nClusters g : Nat) (nameToRow nameToRow' : List (Nat × Nat))
+    (files : List (Nat × List CellRec)) (rows nProc rows' nProc' : Nat)
+    (oldLeafToRow : List (Nat × Nat)) (newLeaves : List Nat) (anc : List (Nat × Nat))
+    (hrows : 1 ≤ rows) (hproc : 1 ≤ nProc) (hrows' : 1 ≤ rows') (hproc' : 1 ≤ nProc')
+    (hntr : ∀ p ∈ nameToRow, p.2 < nClusters)
+    (hw : ∃ f ∈ files, wanted nameToRow f.2 = true)
+    (hntr' : ∀ p ∈ nameToRow', p.2 < newLeaves.length)
+    (hw' : ∃ f ∈ files, wanted nameToRow' f.2 = true)
+    (hnd : newLeaves.Nodup) (hkeys : (anc.map (·.1)).Nodup)
+    (hlook : ∀ p ∈ anc, ∃ r, oldLeafToRow.lookup p.1 = some r ∧ r < nClusters)
+    (hinj : ∀ p ∈ anc, ∀ q ∈ anc,
+      oldLeafToRow.lookup p.1 = oldLeafToRow.lookup q.1 → p.1 = q.1)
+    (hanc : ∀ p ∈ anc, p.2 ∈ newLeaves)
+    (hnew : ∀ (cell : CellRec) (i : Nat), rowOf nameToRow' cell = some i ↔
+      ∃ p ∈ anc, ∃ r, oldLeafToRow.lookup p.1 = some r ∧ rowOf nameToRow cell = some r ∧
+        indexIn newLeaves p.2 = some i) :
+    ∃ buf, precompute nClusters g nameToRow files rows nProc = .ok buf ∧
+      truncate g buf oldLeafToRow newLeaves anc
+        = precompute newLeaves.length g nameToRow' files rows' nProc' :=
+  truncate_precompute_spec nClusters g nameToRow nameToRow' files rows nProc rows' nProc'
+    oldLeafToRow newLeaves anc hrows hproc hrows' hproc' hntr hw hntr' hw' hnd hkeys hlook hinj
+    hanc hnew
+
+
+/- a concrete instance of the hypotheses: cells 10, 12 in old leaf 20 (row 1), cell 11 in old
+leaf 21 (row 0), cell 99 unnamed; both old leaves under the single new leaf 30 -/
+example : ∃ buf, precompute 2 1 [(10, 1), (11, 0), (12, 1)]
+      [(0, [⟨10, [1]⟩, ⟨99, [7]⟩]), (1, [⟨11, [2]⟩, ⟨12, [3]⟩])] 1 2 = .ok buf ∧
+    truncate 1 buf [(20, 1), (21, 0)] [30] [(20, 30), (21, 30)]
+      = precompute 1 1 [(10, 0), (11, 0), (12, 0)]
+          [(0, [⟨10, [1]⟩, ⟨99, [7]⟩]), (1, [⟨11, [2]⟩, ⟨12, [3]⟩])] 5 1 := by
+  apply truncate_coarser <;> try decide
+  intro cell i
+  obtain ⟨name, vals⟩ := cell
+  simp only [rowOf]
+  by_cases h10 : name = 10
+  · subst h10; simp [List.lookup, indexIn, eq_comm]
+  · by_cases h11 : name = 11
+    · subst h11; simp [List.lookup, indexIn, eq_comm]
+    · by_cases h12 : name = 12
+      · subst h12; simp [List.lookup, indexIn, eq_comm]
+      · have e1 : ∀ a b c : Nat, List.lookup name [(10, a), (11, b), (12, c)] = none := by
+          intro a b c
+          have f10 : (name == 10) = false := by simpa using h10
+          have f11 : (name == 11) = false := by simpa using h11
+          have f12 : (name == 12) = false := by simpa using h12
+          simp [List.lookup, f10, f11, f12]
+        simp [e1]
 
 end CTM.C09
